@@ -8,7 +8,7 @@
 (* C06 program: [nmeth, params, async \in {"no","native","async_trait"},   *)
 (*               sel \in {"Self","ref","Borrow"}, extra \in {"none",       *)
 (*               "generic-trait","generic-method","supertrait","where",    *)
-(*               "borrowed-return"}]                                       *)
+(*               "borrowed-return", ...}]                                  *)
 (*   applications: "Prov" provides the trait in the selected way, "NoProv" *)
 (*   does not, "ProvNoSync" provides it but is not Sync, "ProvNoSend"      *)
 (*   provides it, is Sync but not Send                                     *)
@@ -26,10 +26,13 @@ MName(i) == "m" \o ToString(i)
 \* ---- C06
 C06Asyncs == {"no", "native", "async_trait"}
 C06Sels == {"Self", "ref", "Borrow"}
-C06Extras == {"none", "generic-trait", "generic-method", "supertrait", "where", "borrowed-return"}
+\* "byvalue-method": the trait ALSO has a `self`-by-value method; "typed-receiver": a method written `self: &Self`;
+\* "lifetime-trait": the trait has a lifetime parameter; "default-param": a defaulted type parameter
+C06Extras == {"none", "generic-trait", "generic-method", "supertrait", "where", "borrowed-return", "byvalue-method", "typed-receiver",
+              "lifetime-trait", "default-param"}
 C06WellFormed(p) ==
   /\ (p.async = "native" => p.sel = "Self")            \* dyn dispatch of `async fn` needs async_trait
-  /\ (p.extra = "generic-method" => p.sel = "Self")    \* generic methods are not dyn compatible
+  /\ (p.extra \in {"generic-method", "byvalue-method"} => p.sel = "Self")    \* not dyn compatible
   /\ (p.extra = "borrowed-return" => p.async = "no")
 \* Level 2: the delegating method body for method i (first three call shapes)
 \*   Self   : self.as_ref().m(args)            ref : self.as_ref().as_ref().m(args)
